@@ -5,7 +5,7 @@
    Reference: RichModel.SpecTextOps (characters with the ordered list of covering styles). *)
 From RichModel Require Import Prelude Cells TextOps SpecTextOps.
 From RichGen Require Import ControlCodes.
-From RichProofs Require Import TextOpsP TextOpsP2 TextOpsP3 TextOpsP4 TextOpsP5 TextOpsP6 TextOpsP7.
+From RichProofs Require Import TextOpsP TextOpsP2 TextOpsP3 TextOpsP4 TextOpsP5 TextOpsP6 TextOpsP7 TextOpsP8 TextOpsP9 TextOpsP10.
 
 (* (0) the facts of /repo the model was written for *)
 Example C05_strip_codes_pinned : STRIP_CONTROL_CODES = [8; 11; 12; 13].
@@ -13,52 +13,58 @@ Proof. reflexivity. Qed.
 Example C05_re_whitespace_pinned : RE_WHITESPACE_src = lit "\s+$".
 Proof. reflexivity. Qed.
 
-(* (1) MAIN, full statement (DESIGN section 9):
-     forall t ops, Consistent t -> in_domain ops (abs t) = true ->
-       abs (run FIXED ops t) = run_ref ops (abs t) /\ Consistent (run FIXED ops t).
-   Proved below for every history made of the 25 operations whose simulation lemma is closed
-   (construct, append str/Text, append_text, append_tokens, assemble, join (both roles), t[i],
-   pad, pad_left, pad_right, align, truncate, right_crop, set_length, rstrip, rstrip_end, copy,
-   blank_copy, plain setter, remove_suffix, stylize, highlight_words, highlight_regex, copy_styles),
-   unbounded in strings, spans, arguments and history length.  MISSING: the simulation lemmas of the
-   four operations that go through Text.divide (divide, t[a:b], split, expand_tabs); for those the
-   same statement is validated by the correspondence + spec checker on the implementation only. *)
-Theorem C05_ops_refine_partial : forall ops t,
-  Consistent t -> forallb proved_op ops = true -> in_domain ops (abs t) = true ->
+(* (1) MAIN (DESIGN section 9), full strength: every consistent text, every in-domain history of any length
+   over all 29 modelled operations (construct, append str/Text, append_text, append_tokens, assemble, join,
+   split, divide, t[i], t[a:b], pad, pad_left, pad_right, align, truncate, right_crop, set_length, rstrip,
+   rstrip_end, expand_tabs, copy, blank_copy, plain setter, remove_suffix, stylize, highlight_words,
+   highlight_regex, copy_styles); unbounded in strings, span sets, arguments (offsets beyond the ends,
+   negative indices and counts included) and history length. *)
+Theorem C05_ops_refine : forall ops t,
+  Consistent t -> in_domain ops (abs t) = true ->
   abs (run FIXED ops t) = run_ref ops (abs t) /\ Consistent (run FIXED ops t).
-Proof. exact ops_refine_proved. Qed.
-Print Assumptions C05_ops_refine_partial.
+Proof. exact ops_refine. Qed.
+Print Assumptions C05_ops_refine.
 
 (* read back in the property's words: plain is the reference string and len() is its length *)
 Theorem C05_plain_and_len : forall ops t,
-  Consistent t -> forallb proved_op ops = true -> in_domain ops (abs t) = true ->
+  Consistent t -> in_domain ops (abs t) = true ->
   plain (run FIXED ops t) = rplain (rchars (run_ref ops (abs t))) /\
   len (run FIXED ops t) = zlen (rchars (run_ref ops (abs t))).
-Proof. exact refines_run. Qed.
+Proof. exact refines_run_all. Qed.
 Print Assumptions C05_plain_and_len.
+
+(* the heart of it: Text.divide (repaired precedence) hands every character of every line exactly the
+   ordered covering styles it had, for all ascending offsets (beyond the end included) and ALL well-formed
+   span lists -- empty, duplicated, coinciding, overlapping spans included *)
+Theorem C05_divide : forall t offs, Consistent t -> sorted_from 0 offs = true ->
+  map abs (divide FIXED t offs) = r_divide (abs t) offs /\ Forall Consistent (divide FIXED t offs).
+Proof. exact sim_divide. Qed.
+Print Assumptions C05_divide.
 
 Example C05_ops_refine_nonvacuous :
   let t := ctor FIXED (lit "a" ++ [13] ++ lit "b c") (default_meta 2) [(0, 2, 1); (1, 3, 4)] in
   let ops := [OAppendStr (lit "x" ++ [8] ++ lit "y") (Some 3); OPadLeft 2 46; OStylize 5 (-3) None;
               OTruncate 6 3 false; OIndex (-2); OJoinSep [(lit "pq", 1, [(0, 1, 6)]); (lit "r", 0, [])];
-              ORightCrop 0; ORemoveSuffix []; OSetLength 9; OAlign 1 12 42] in
-  Consistent t /\ forallb proved_op ops = true /\ in_domain ops (abs t) = true /\
-  rplain (rchars (run_ref ops (abs t))) = lit "*pq r     **" /\
-  len (run FIXED ops t) = 12.
+              ORightCrop 0; ORemoveSuffix []; OSetLength 9; OAlign 1 12 42;
+              OAppendStr [9; 120; 10; 9; 121] (Some 2); OExpandTabs (Some 4); OSlice (Some (-9)) None;
+              OSplit [10] false false 1; ODivide [1; 3; 99] 1] in
+  Consistent t /\ in_domain ops (abs t) = true /\
+  rplain (rchars (run_ref (firstn 10 ops) (abs t))) = lit "*pq r     **" /\
+  rplain (rchars (run_ref ops (abs t))) = lit "  " /\ len (run FIXED ops t) = 2.
 Proof. vm_compute. repeat split; reflexivity. Qed.
 
-(* (1b) the four operations built on Text.divide (divide, t[a:b], split, expand_tabs): the same
-   one-step statement (same outcome class; on success the result refines the reference result and is
-   consistent), decided for EVERY element of a finite domain by computation: 2116 texts (all strings
-   over {a, TAB, NL} up to length 3 with every well-formed span, up to length 2 with every ordered pair
-   of spans, duplicates included) x 157 operation instances.  A proof on that domain, not a sample. *)
-Theorem C05_divide_family_small : forall t o, In t small_texts -> In o small_ops ->
-  Consistent t /\ step_ok t (abs t) o = true.
-Proof. exact divide_family_small_forall. Qed.
-Print Assumptions C05_divide_family_small.
-Example C05_divide_family_small_nonvacuous :
-  (length small_texts, length small_ops) = (2116%nat, 157%nat).
-Proof. exact small_domain_size. Qed.
+(* (1b) the reference split / expand_tabs are written as "cut at the separator occurrences" / "lines, parts,
+   pad to the tab stop".  Two INDEPENDENT renderings -- str.split as one scan, expand_tabs as one walk with
+   a column counter -- coincide with them on an exhaustive finite domain (511 strings over {a,b} up to length
+   8 x 20 split instances; 3280 strings over {a,TAB,NL} up to length 7 x 7 tab sizes; every character with
+   its own style).  A proof for that domain only; `alt_ok` is also evaluated on every generated case. *)
+Theorem C05_independent_renderings_small : forall r o,
+  (In r split_texts /\ In o split_ops) \/ (In r tab_texts /\ In o tab_ops) -> alt_ok o r = true.
+Proof. exact alt_small_forall. Qed.
+Print Assumptions C05_independent_renderings_small.
+Example C05_independent_renderings_nonvacuous :
+  (length split_texts, length split_ops, length tab_texts, length tab_ops) = (511%nat, 20%nat, 3280%nat, 7%nat).
+Proof. exact alt_domain_size. Qed.
 
 (* (1c) SEVERAL LIVE VALUES.  Histories over a store of named Text values: `y := x.copy()` and the
    other operations that return a Text built from the receiver's parts (blank_copy, t[i], t[a:b],
@@ -79,23 +85,22 @@ Theorem C05_store_frame : forall fx sops st k t,
 Proof. intros fx sops st k t. exact (srun_frame fx sops st k t). Qed.
 Print Assumptions C05_store_frame.
 
-(* full statement: the same without `forallb proved_sop sops` (missing: SLines and SApply of the four
-   divide-based operations, as in (1)) *)
-Theorem C05_store_refine_partial : forall sops st,
-  Forall Consistent st -> forallb proved_sop sops = true -> in_sdomain sops (map abs st) = true ->
+Theorem C05_store_refine : forall sops st,
+  Forall Consistent st -> in_sdomain sops (map abs st) = true ->
   map abs (srun FIXED sops st) = srun_ref sops (map abs st) /\ Forall Consistent (srun FIXED sops st).
-Proof. exact store_refine_proved. Qed.
-Print Assumptions C05_store_refine_partial.
+Proof. exact store_refine. Qed.
+Print Assumptions C05_store_refine.
 
 Example C05_store_nonvacuous :
   let st := [ctor FIXED (lit "hello world") (default_meta 0) [(0, 5, 1); (6, 11, 2)]] in
   let sops := [SApply 1 0 OCopy; SApply 0 0 (ORightCrop 3); SApply 0 0 (OPadLeft 2 32); SAppendText 1 0;
-               SJoin 2 1 [0; 1; 0]%nat; SAssemble 3 4 [2; 0]%nat] in
-  Forall Consistent st /\ forallb proved_sop sops = true /\ in_sdomain sops (map abs st) = true /\
+               SJoin 2 1 [0; 1; 0]%nat; SAssemble 3 4 [2; 0]%nat; SLines 3 (OSplit [32] true false 0);
+               SApply 0 3 (OSlice (Some 2) (Some (-1)))] in
+  Forall Consistent st /\ in_sdomain sops (map abs st) = true /\
   (* the copy made in step 1 is untouched by the two edits of its source *)
   nth_error (srun FIXED (firstn 3 sops) st) 1 = nth_error (srun FIXED (firstn 1 sops) st) 1 /\
-  length (srun FIXED sops st) = 4%nat.
-Proof. vm_compute. repeat split; try reflexivity. repeat constructor. Qed.
+  (4 < length (srun FIXED sops st))%nat.
+Proof. vm_compute. repeat split; try reflexivity; repeat constructor. Qed.
 
 (* the constructor establishes the invariant, whatever control codes the string contains *)
 Theorem C05_constructor : forall s m, Consistent (ctor FIXED s m []) /\ abs (ctor FIXED s m []) = r_ctor s m.
